@@ -363,6 +363,13 @@ func vfC16Established(t *testing.T, res *vfResult, c vfC16Case) {
 			return
 		}
 		n.Deliver(string(x.EP.addr), rec, y.EP.addr)
+	case "peer-close-transport-cannot-send":
+		// the peer closes while X's transport refuses to send (network unreachable): X cannot answer the close_notify,
+		// but it has received it - its Read returns EOF and the connection is closed all the same
+		x.EP.mu.Lock()
+		x.EP.wrErr = errors.New("sendto: network is unreachable")
+		x.EP.mu.Unlock()
+		calls.Go("Y.Close", func() (int, error) { return 0, y.Conn.Close() })
 	case "read-deadline":
 		_ = x.Conn.SetReadDeadline(time.Now().Add(2 * time.Second))
 	case "write-deadline-blocked":
@@ -684,7 +691,7 @@ func vfC16Cases() []vfC16Case {
 	for _, v := range []string{"12-ecdsa", "12-cid", "12-psk-cbc", "13", "13-cid"} {
 		for _, actor := range []string{"c", "s"} {
 			for _, a := range []string{"close-1", "close-3", "close-then-close", "both-close", "fatal-alert-injected",
-				"close-notify-injected", "read-deadline", "write-deadline-blocked", "close-with-accessors"} {
+				"close-notify-injected", "read-deadline", "write-deadline-blocked", "close-with-accessors", "peer-close-transport-cannot-send"} {
 				add(vfC16Case{Variant: v, Phase: "established", Actor: actor, Action: a})
 			}
 			kmax := vfPick(8, 14)
